@@ -133,6 +133,8 @@ class SepWorld(BaseWorld):
                       'phi': r.choice([None, None, None, 0.25, 0.5, 0.9]),
                       'top_chemicals': list(ps['top_chemicals']), 'bottom_chemicals': list(ps['bottom_chemicals']),
                       'strict': r.random() < 0.3}
+                if r.random() < 0.15:
+                    ev['inplace'] = True     # an in-place stage: the outlets are the two phases of the feed itself
             elif op == 'phase_split':
                 nm = self.pick(r, 3)
                 ev = {'op': op, 'feed': nm[0], 'outlets': nm[1:], 'frac': r.choice([0.0, 0.3, 0.5, 1.0])}
@@ -393,7 +395,39 @@ class SepWorld(BaseWorld):
         return self._moisture_check(ev, ev['top'], ev['bottom'], ev['mc'], before, r,
                                     float((before * split * pk.MW).sum()))
 
+    def do_partition_inplace(self, ev):
+        """partition(ms, ms['g'], ms['l'], ...): the feed is a two-phase stream and its own phases receive the result"""
+        pk = self.pk
+        src = self.S[ev['feed']]
+        f0 = self.mol(ev['feed'])
+        ms = tmo.MultiStream(None, phases=('g', 'l'), T=src.T, P=src.P, thermo=pk.thermo)
+        ms.imol['g'] = f0 * 0.3
+        ms.imol['l'] = f0 - f0 * 0.3
+        IDs = tuple(ev['IDs'])
+        K = np.array(ev['K'], float)
+        kw = {}
+        if ev['top_chemicals']:
+            kw['top_chemicals'] = tuple(ev['top_chemicals'])
+        if ev['bottom_chemicals']:
+            kw['bottom_chemicals'] = tuple(ev['bottom_chemicals'])
+        r = self.call(ev, lambda: sep.partition(ms, ms['g'], ms['l'], IDs, K, ev['phi'], strict=ev['strict'], **kw))
+        self.stats['mechanism_ops'] += 1
+        self.stats['probe:partition_in_place'] += 1
+        if r[0] == 'exc':
+            self.stats[f'exc:partition_inplace:{type(r[1]).__name__}'] += 1
+            return 'rejected' if isinstance(r[1], InfeasibleRegion) else 'exc'
+        t = np.array(ms.imol['g'].to_array(), float)
+        b = np.array(ms.imol['l'].to_array(), float)
+        reported = self.warned_infeasible()
+        if not reported:
+            self.balance(ev, [f0], [t, b], 'partition (in place)')
+            if (t < -1e-12).any() or (b < -1e-12).any():
+                self.fail('negative-flow', 'in-place partition left a negative flow', {'event': ev})
+        return ['ok', float(r[1]).hex()]
+
     def do_partition(self, ev):
+        if ev.get('inplace'):
+            return self.do_partition_inplace(ev)
         pk = self.pk
         feed, top, bottom = self.S[ev['feed']], self.S[ev['top']], self.S[ev['bottom']]
         f0 = self.mol(ev['feed'])
